@@ -422,6 +422,44 @@ def _r2(ctx):
                     elif isinstance(a, ast.ListComp):
                         iv = _interval(a.elt, _comp_names(a))
             seen[k] = (s, iv)
+    if not seen:
+        # second idiom: {slope name: positions} and one loop  `frame.iloc[locs] = getattr(h, name).iloc[locs]`
+        def interval_of_indexer(e_):
+            c_ = [x_ for x_ in calls_in(e_) if isinstance(x_.func, ast.Attribute) and x_.func.attr == "get_indexer_for"]
+            if not c_ or not c_[0].args:
+                return None
+            a_ = c_[0].args[0]
+            if isinstance(a_, ast.List) and len(a_.elts) == 1:
+                return _interval(a_.elts[0])
+            if isinstance(a_, ast.ListComp):
+                return _interval(a_.elt, _comp_names(a_))
+            return None
+        tables = {s_.targets[0].id: s_.value for s_ in g.node.body if isinstance(s_, ast.Assign) and isinstance(s_.targets[0], ast.Name)
+                  and isinstance(s_.value, ast.Dict) and s_.value.keys and all(isinstance(const_value(k_), str) for k_ in s_.value.keys)}
+        for lp in [s_ for s_ in g.node.body if isinstance(s_, ast.For)]:
+            it_ = lp.iter
+            d_lit = None
+            if isinstance(it_, ast.Call) and isinstance(it_.func, ast.Attribute) and it_.func.attr == "items":
+                if isinstance(it_.func.value, ast.Name) and it_.func.value.id in tables:
+                    d_lit = tables[it_.func.value.id]
+                elif isinstance(it_.func.value, ast.Dict) and it_.func.value.keys and \
+                        all(isinstance(const_value(k_), str) for k_ in it_.func.value.keys):
+                    d_lit = it_.func.value                     # the table written in place
+            if d_lit is not None and isinstance(lp.target, ast.Tuple) and \
+                    len(lp.target.elts) == 2 and all(isinstance(x_, ast.Name) for x_ in lp.target.elts) and len(lp.body) == 1 and \
+                    isinstance(lp.body[0], ast.Assign):
+                kn, ln = lp.target.elts[0].id, lp.target.elts[1].id
+                st_ = lp.body[0]
+                t_, v_ = st_.targets[0], st_.value
+                shape_ok = isinstance(t_, ast.Subscript) and isinstance(t_.value, ast.Attribute) and t_.value.attr == "iloc" and \
+                    isinstance(t_.slice, ast.Name) and t_.slice.id == ln and isinstance(v_, ast.Subscript) and \
+                    isinstance(v_.value, ast.Attribute) and v_.value.attr == "iloc" and isinstance(v_.slice, ast.Name) and \
+                    v_.slice.id == ln and isinstance(v_.value.value, ast.Call) and call_name(v_.value.value) == "getattr" and \
+                    len(v_.value.value.args) == 2 and isinstance(v_.value.value.args[1], ast.Name) and v_.value.value.args[1].id == kn
+                if shape_ok:
+                    d_ = d_lit
+                    for k_, e_ in zip(d_.keys, d_.values):
+                        seen[const_value(k_)] = (st_, interval_of_indexer(e_))
     if set(seen) != set(want5):
         if not seen:
             raise AnalysisError("five_segment: slope stores not found")
